@@ -1525,10 +1525,18 @@ func (e *Exec) appendOp(s SliceV, t Value, fn *ssa.Builtin) Value {
 	cs := int(e.ConcInt(s.cap))
 	// snapshot source elements first (src may alias dst)
 	vals := make([]Value, nt)
+	srcOpaque := src.b.opaque
 	for i := 0; i < nt; i++ {
-		vals[i] = e.copyVal(e.loadIdx(src.b, e.ctx.Bin(OAdd, src.off, e.i64(int64(i)))))
+		if srcOpaque != "" {
+			vals[i] = e.ctx.Const(8, '?')
+		} else {
+			vals[i] = e.copyVal(e.loadIdx(src.b, e.ctx.Bin(OAdd, src.off, e.i64(int64(i)))))
+		}
 	}
 	if ns+nt <= cs && s.b != nil {
+		if srcOpaque != "" {
+			s.b.opaque = srcOpaque
+		}
 		off := int(e.ConcInt(s.off))
 		for i := 0; i < nt; i++ {
 			s.b.cells[off+ns+i] = vals[i]
@@ -1555,7 +1563,16 @@ func (e *Exec) appendOp(s SliceV, t Value, fn *ssa.Builtin) Value {
 		}
 	}
 	b := e.newBacking(newcap, "append")
+	if srcOpaque != "" {
+		b.opaque = srcOpaque
+	} else if s.b != nil && s.b.opaque != "" {
+		b.opaque = s.b.opaque
+	}
 	for i := 0; i < ns; i++ {
+		if s.b.opaque != "" {
+			b.cells[i] = e.ctx.Const(8, '?')
+			continue
+		}
 		b.cells[i] = e.copyVal(e.loadIdx(s.b, e.ctx.Bin(OAdd, s.off, e.i64(int64(i)))))
 	}
 	for i := 0; i < nt; i++ {
@@ -1627,15 +1644,20 @@ func (e *Exec) copyOp(dst SliceV, srcv Value) Value {
 	if n == 0 {
 		return e.i64(0)
 	}
-	if src.b.opaque != "" {
-		dst.b.opaque = src.b.opaque
-	}
 	if src.b.flt != nil && dst.off.IsConst() && dst.off.c == 0 {
 		dst.b.flt = src.b.flt
 	}
 	vals := make([]Value, n)
-	for i := int64(0); i < n; i++ {
-		vals[i] = e.copyVal(e.loadIdx(src.b, c.Bin(OAdd, src.off, e.i64(i))))
+	if src.b.opaque != "" {
+		// contents not modelled: taint the destination
+		dst.b.opaque = src.b.opaque
+		for i := range vals {
+			vals[i] = c.Const(8, '?')
+		}
+	} else {
+		for i := int64(0); i < n; i++ {
+			vals[i] = e.copyVal(e.loadIdx(src.b, c.Bin(OAdd, src.off, e.i64(i))))
+		}
 	}
 	for i := int64(0); i < n; i++ {
 		idx := c.Bin(OAdd, dst.off, e.i64(i))
